@@ -2409,9 +2409,24 @@ func (a *Authenticator) handleServerAuthentication(ctx context.Context, negotiat
 		selectedMethod := AuthNone
 		selectedBitmask := 0
 
+		// Several names share one wire bit (TOKEN and IDTOKENS are both CAUTH_TOKEN),
+		// so the bit alone does not say which NAME the client offered. The client's
+		// ad listed its methods by name: only select a method the client named, so
+		// that both ends run and report the same method.
+		clientNamed := func(m AuthMethod) bool {
+			if negotiation.ClientConfig == nil || len(negotiation.ClientConfig.AuthMethods) == 0 {
+				return true
+			}
+			for _, cm := range negotiation.ClientConfig.AuthMethods {
+				if cm == m {
+					return true
+				}
+			}
+			return false
+		}
 		for _, method := range a.config.AuthMethods {
 			methodBitmask := authMethodToBitmask(method)
-			if clientBitmask&methodBitmask != 0 {
+			if clientBitmask&methodBitmask != 0 && clientNamed(method) {
 				selectedMethod = method
 				selectedBitmask = methodBitmask
 				break
